@@ -26,7 +26,13 @@ def isWs (c : Char) : Bool :=
   n == 0x205F || n == 0x3000
 
 def trimStart (t : List Char) : List Char := t.dropWhile isWs
-def trimEnd (t : List Char) : List Char := (t.reverse.dropWhile isWs).reverse
+/-- `str::trim_end`: drop the maximal white-space suffix (structural, so that it evaluates in the kernel) -/
+def trimEnd : List Char → List Char
+  | [] => []
+  | c :: t =>
+    match trimEnd t with
+    | [] => if isWs c then [] else [c]
+    | r => c :: r
 /-- `str::trim` -/
 def trim (t : List Char) : List Char := trimEnd (trimStart t)
 
